@@ -1,7 +1,7 @@
 /-
   C09 — local-Clifford equivalence of graph states is decided correctly, constructively.
 
-  Property theorems only (helper lemmas live in Proofs/GraphOps.lean and Proofs/LC.lean).
+  Property theorems only (helper lemmas live in Proofs/GraphOps.lean, Proofs/LC.lean and Proofs/LCSeq{Step,Loop,Term}.lean).
 
   What is proved here for every size n and every input (Tier A of DESIGN §4):
     1. local complementation toggles exactly the pairs of distinct neighbours and is an involution; both implementations
@@ -17,11 +17,16 @@
   Refuted, kernel-checked (known finding D14): completeness of the pair-sum shortcut for dimension ≥ 5.
     6. LC-equivalent graphs always admit a valid `Q` (one direction of Van den Nest's theorem, proved here), hence a `no`
        on the full-rank / exhaustive paths means the graphs are in different LC orbits — with no appeal to the literature.
-  Cited, not proved (Tier C): a valid `Q` implies that the graphs are related by local complementations (the other
-  direction of Van den Nest, Dehaene, De Moor, Phys. Rev. A 69, 022316); the R-matrix reduction of `lc_graph_operations`
-  reaches I.
+    7. The other direction, also proved here for every n (Proofs/LCSeq{Step,Loop,Term}.lean): for every valid `Q` the
+       R-matrix reduction of `lc_graph_operations` terminates (`fuel ≥ n + 1` rounds of each loop) and the vertex sequence
+       it returns takes the first graph exactly to the second (`lc_sequence_correct`, `lc_sequence_terminates`); hence
+       `yes_means_same_orbit`, `valid_clifford_iff_same_orbit` (Van den Nest–Dehaene–De Moor, Phys. Rev. A 69, 022316,
+       Theorem 3 for graph states, both directions) and `decides_lc_equivalence_off_the_shortcut`: the answer is right
+       on every run except a `no` on the pair-sum / random paths (D14; `decides_lc_equivalence_refuted`).
+  No part of the "same LC orbit" claim is cited any more.
 -/
 import GraphiqModel.Proofs.LC
+import GraphiqModel.Proofs.LCSeqTerm
 namespace Graphiq.C09
 open Graphiq Graphiq.LC Graphiq.PRow Graphiq.Tab
 
@@ -106,7 +111,7 @@ theorem yes_returns_a_valid_clifford (a b : BMat) (mode : Mode) (draws : List Bo
   exact ⟨h1, (solF_coeff_iff a.r a.f b.f _).mp h2, h3⟩
 
 /-- **for a solution space of dimension ≤ 4 the search is exhaustive**: a `no` on that path means that no assignment at
-    all satisfies the equations with every block invertible (so, by the cited theorem, the graphs are not LC-equivalent) -/
+    all satisfies the equations with every block invertible (so the graphs are not LC-equivalent: `no_means_not_lc_equivalent`) -/
 theorem no_is_exhaustive_for_small_dimension (a b : BMat) (mode : Mode) (draws : List Bool) (out : EqOut)
     (hn : 0 < a.r) (e : isLcEquivalent a b mode draws = .ok out) (hsol : out.sol = none)
     (hp : out.path = "all-combinations") (v : List Bool)
@@ -120,7 +125,7 @@ theorem no_is_right_on_full_rank (a b : BMat) (mode : Mode) (draws : List Bool) 
     (hv : ∀ j k, j < a.r → k < a.r → equation a.r a.f b.f (vget v) j k = false) : isValidClifford a.r v = false :=
   isLcEquivalent_no_fullrank a b mode draws out hn e hp v ((solF_coeff_iff a.r a.f b.f _).mpr hv)
 
-/-- **one step of the cited theorem, proved**: a local complementation is realised by an explicit local Clifford — the
+/-- **one step of Van den Nest's theorem**: a local complementation is realised by an explicit local Clifford — the
     vector with block `[[1,0],[1,1]]` at `v`, `[[1,1],[0,1]]` at the neighbours of `v` and the identity elsewhere solves every
     equation of the system for `(A, localComp A v)` and has invertible blocks (so the equations are satisfiable by a valid
     `Q` for every pair one complementation apart, for every n) -/
@@ -153,7 +158,8 @@ theorem no_means_not_lc_equivalent (a b : BMat) (mode : Mode) (draws : List Bool
   exact absurd hval (by decide)
 
 /-- the full decision property as worded: the test answers yes exactly when one graph is reachable from the other by
-    local complementations -/
+    local complementations (false for the code, D14: `decides_lc_equivalence_refuted`; proved on every other run:
+    `decides_lc_equivalence_off_the_shortcut`) -/
 def decides_lc_equivalence_statement : Prop :=
   ∀ (a b : BMat) (mode : Mode) (draws : List Bool) (out : EqOut), 0 < a.r → a.r = b.r → a.c = a.r → b.c = b.r →
     Simple a.r a.f → Simple b.r b.f → mode ≠ .other → isLcEquivalent a b mode draws = .ok out →
@@ -199,9 +205,10 @@ theorem never_a_false_no_refuted : ¬ never_a_false_no_statement := by
     simp at this
   · simp at e
 
-/-- what *is* proved of the decision property: every `yes` carries a valid `Q`; every `no` taken on the full-rank shortcut
-    or after the exhaustive search (dimension ≤ 4) means that no valid `Q` exists.  Missing: `valid Q ⇔ same orbit` is Van
-    den Nest's theorem, cited; a `no` on the pair-sum / random paths (dimension ≥ 5) is incomplete — refuted above, D14 -/
+/-- the part of the decision property about `Q`: every `yes` carries a valid `Q`; every `no` taken on the full-rank shortcut
+    or after the exhaustive search (dimension ≤ 4) means that no valid `Q` exists.  With `valid Q ⇔ same orbit`
+    (`valid_clifford_iff_same_orbit`, proved below) this gives `decides_lc_equivalence_off_the_shortcut`.  Missing, and false
+    for the code: a `no` on the pair-sum / random paths (dimension ≥ 5) is incomplete — refuted above, D14 -/
 theorem decides_lc_equivalence_partial (a b : BMat) (mode : Mode) (draws : List Bool) (out : EqOut)
     (hn : 0 < a.r) (e : isLcEquivalent a b mode draws = .ok out) :
     (∀ q, out.sol = some q →
@@ -264,10 +271,177 @@ theorem lc_check_triangle_star :
     checkAnswer K3 S3 = some (true, [("P_dag", 0), ("H", 0), ("H", 1), ("P", 1), ("P", 2), ("Z", 2)]) := by
   decide +kernel
 
-/-- the constructive part of the property as worded, for the vertex sequence -/
+/-- the constructive part of the property as worded, for the vertex sequence (proved: `lc_sequence_correct`) -/
 def lc_sequence_statement : Prop :=
   ∀ (fuel : Nat) (a b : BMat) (out : EqOut) (q : List Bool) (seq : List Nat), 0 < a.r → a.r = b.r → Simple a.r a.f →
     Simple b.r b.f → isLcEquivalent a b .det [] = .ok out → out.sol = some q →
     lcGraphOperations fuel a.r a.f q = .ok seq → EqAdj a.r (applySeq a.f seq) b.f
+
+/-- **the R-matrix reduction of `lc_graph_operations` is correct** (the constructive direction of Van den Nest–Dehaene–De Moor,
+    Section IV, proved for every n): for *any* local Clifford `Q` with invertible blocks that solves the system for
+    `(a, b)`, every vertex sequence the reduction returns (singles, then doubles `i, j, i`) consists of vertices of the graph
+    and, applied to `a` as local complementations, gives exactly `b`.  Invariant: the matrix the Python rewrites is
+    `R = C θ + D` for the current graph θ and a residual valid `Q` from θ to `b`; one `_apply_f` at a vertex with `c_v = 1` is
+    one complementation (`applyF_tracks`, `LCInv.step`), and `R = I` forces θ = b (`identity_R_means_done`). -/
+theorem lc_graph_operations_reaches_the_target (fuel n : Nat) (a b : Adj) (q : List Bool) (seq : List Nat)
+    (ha : Simple n a) (hb : Simple n b) (hq : ∀ j k, j < n → k < n → equation n a b (vget q) j k = false)
+    (hv : isValidClifford n q = true) (e : lcGraphOperations fuel n a q = .ok seq) :
+    EqAdj n (applySeq a seq) b ∧ ∀ v ∈ seq, v < n :=
+  lcGraphOperations_correct fuel n a b q seq ha hb hq hv e
+
+/-- `lc_sequence_statement` holds: the sequence returned for the `Q` of a `yes` transforms the first graph into the second -/
+theorem lc_sequence_correct : lc_sequence_statement := by
+  intro fuel a b out q seq hn hab ha hb e hq hseq
+  obtain ⟨_, h2, h3⟩ := yes_returns_a_valid_clifford a b .det [] out q hn e hq
+  have hb' : Simple a.r b.f := by rw [hab]; exact hb
+  exact (lc_graph_operations_reaches_the_target fuel a.r a.f b.f q seq ha hb' h2 h3 hseq).1
+
+/-- **the reduction terminates on every valid `Q`** (`fuel` is the model's bound on the two `while` loops; `runtime` = bound
+    hit): `fuel ≥ n + 1` always suffices.  First loop: every pass of `_singles` with `_condition` true clears `c_v` of at least
+    one block and never sets one, so at most (number of blocks with `c = 1`) ≤ n passes; second loop: once `_condition` is
+    false, one pass of `_doubles` never meets an empty `k_list` (`R` is invertible), makes rows `j`, `k` of each recorded pair
+    unit rows and keeps unit rows, so it ends with `R = I` — the body runs at most once. -/
+theorem lc_graph_operations_terminates (fuel n : Nat) (a b : Adj) (q : List Bool) (hn : 0 < n) (ha : Simple n a)
+    (hb : Simple n b) (hq : ∀ j k, j < n → k < n → equation n a b (vget q) j k = false)
+    (hv : isValidClifford n q = true) (hf : n + 1 ≤ fuel) : ∃ seq, lcGraphOperations fuel n a q = .ok seq :=
+  lcGraphOperations_terminates fuel n a b q hn ha hb hq hv hf
+
+/-- **every `yes` comes with a sequence of local complementations**: for the `Q` of a `yes` (both modes, every search path,
+    every value of the random draws) `lc_graph_operations` returns, within `n + 1` rounds of each loop, a list of vertices
+    of the graph whose local complementations take the first graph exactly to the second -/
+theorem lc_sequence_terminates (fuel : Nat) (a b : BMat) (mode : Mode) (draws : List Bool) (out : EqOut) (q : List Bool)
+    (hn : 0 < a.r) (hab : a.r = b.r) (ha : Simple a.r a.f) (hb : Simple b.r b.f)
+    (e : isLcEquivalent a b mode draws = .ok out) (hq : out.sol = some q) (hf : a.r + 1 ≤ fuel) :
+    ∃ seq, lcGraphOperations fuel a.r a.f q = .ok seq ∧ (∀ v ∈ seq, v < a.r) ∧ EqAdj a.r (applySeq a.f seq) b.f := by
+  obtain ⟨_, h2, h3⟩ := yes_returns_a_valid_clifford a b mode draws out q hn e hq
+  have hb' : Simple a.r b.f := by rw [hab]; exact hb
+  obtain ⟨seq, hs⟩ := lc_graph_operations_terminates fuel a.r a.f b.f q hn ha hb' h2 h3 hf
+  have := lc_graph_operations_reaches_the_target fuel a.r a.f b.f q seq ha hb' h2 h3 hs
+  exact ⟨seq, hs, this.2, this.1⟩
+
+/-- **the hard direction, proved: a `yes` means that the graphs are in the same LC orbit** (no citation needed any more) -/
+theorem yes_means_same_orbit (a b : BMat) (mode : Mode) (draws : List Bool) (out : EqOut) (q : List Bool)
+    (hn : 0 < a.r) (hab : a.r = b.r) (ha : Simple a.r a.f) (hb : Simple b.r b.f)
+    (e : isLcEquivalent a b mode draws = .ok out) (hq : out.sol = some q) : SameOrbit a.r a.f b.f := by
+  obtain ⟨seq, _, h1, h2⟩ := lc_sequence_terminates (a.r + 1) a b mode draws out q hn hab ha hb e hq (Nat.le_refl _)
+  exact ⟨seq, h1, h2⟩
+
+/-- **`find_lc_operations`**: whatever it returns is a list of vertices whose local complementations take the first graph to
+    the second; and it does return whenever `is_lc_equivalent` says yes -/
+theorem find_lc_operations_correct (fuel : Nat) (a b : BMat) (mode : Mode) (draws : List Bool)
+    (hn : 0 < a.r) (hab : a.r = b.r) (ha : Simple a.r a.f) (hb : Simple b.r b.f) :
+    (∀ seq, findLcOperations fuel a b mode draws = .ok seq →
+      (∀ v ∈ seq, v < a.r) ∧ EqAdj a.r (applySeq a.f seq) b.f) ∧
+    (∀ out, isLcEquivalent a b mode draws = .ok out → out.sol.isSome = true → a.r + 1 ≤ fuel →
+      ∃ seq, findLcOperations fuel a b mode draws = .ok seq) := by
+  have hb' : Simple a.r b.f := by rw [hab]; exact hb
+  constructor
+  · intro seq e
+    unfold findLcOperations at e
+    cases h : isLcEquivalent a b mode draws with
+    | error x => rw [h] at e; cases e
+    | ok out =>
+      rw [h] at e
+      dsimp only at e
+      cases hs : out.sol with
+      | none => rw [hs] at e; cases e
+      | some q =>
+        rw [hs] at e
+        obtain ⟨_, h2, h3⟩ := yes_returns_a_valid_clifford a b mode draws out q hn h hs
+        have := lc_graph_operations_reaches_the_target fuel a.r a.f b.f q seq ha hb' h2 h3 e
+        exact ⟨this.2, this.1⟩
+  · intro out h hs hf
+    cases hq : out.sol with
+    | none => rw [hq] at hs; cases hs
+    | some q =>
+      obtain ⟨seq, e, _⟩ := lc_sequence_terminates fuel a b mode draws out q hn hab ha hb h hq hf
+      refine ⟨seq, ?_⟩
+      unfold findLcOperations
+      rw [h]
+      dsimp only
+      rw [hq]
+      exact e
+
+/-- **Van den Nest–Dehaene–De Moor's theorem for graph states, both directions proved for every n**: the linear system has a
+    solution with invertible blocks iff the graphs are related by a sequence of local complementations.  (⇐ is
+    `lc_equivalent_graphs_have_a_valid_clifford`; ⇒ is constructive — the sequence is the one `lc_graph_operations` computes) -/
+theorem valid_clifford_iff_same_orbit (n : Nat) (A B : Adj) (hn : 0 < n) (hA : Simple n A) (hB : Simple n B) :
+    (∃ v : List Bool, (∀ j k, j < n → k < n → equation n A B (vget v) j k = false) ∧ isValidClifford n v = true) ↔
+      SameOrbit n A B := by
+  constructor
+  · rintro ⟨v, h1, h2⟩
+    obtain ⟨seq, hs⟩ := lc_graph_operations_terminates (n + 1) n A B v hn hA hB h1 h2 (Nat.le_refl _)
+    have := lc_graph_operations_reaches_the_target (n + 1) n A B v seq hA hB h1 h2 hs
+    exact ⟨seq, this.2, this.1⟩
+  · exact lc_equivalent_graphs_have_a_valid_clifford n A B hA
+
+/-- **the decision property, proved wherever the code is right**: on every run that says `yes`, and on every run that says
+    `no` on the full-rank shortcut or after the exhaustive search (solution space of dimension ≤ 4), the answer is `yes`
+    exactly when one graph is reachable from the other by local complementations.  What remains outside is only a `no` on the
+    pair-sum / random paths (dimension ≥ 5), where the code is wrong (D14, `decides_lc_equivalence_refuted`). -/
+theorem decides_lc_equivalence_off_the_shortcut (a b : BMat) (mode : Mode) (draws : List Bool) (out : EqOut)
+    (hn : 0 < a.r) (hab : a.r = b.r) (ha : Simple a.r a.f) (hb : Simple b.r b.f)
+    (e : isLcEquivalent a b mode draws = .ok out)
+    (hp : out.sol.isSome = true ∨ out.path = "all-combinations" ∨ out.path = "full-rank") :
+    out.sol.isSome = true ↔ SameOrbit a.r a.f b.f := by
+  constructor
+  · intro hs
+    cases hq : out.sol with
+    | none => rw [hq] at hs; cases hs
+    | some q => exact yes_means_same_orbit a b mode draws out q hn hab ha hb e hq
+  · intro horb
+    cases hq : out.sol with
+    | some q => rfl
+    | none =>
+      rcases hp with hp | hp
+      · rw [hq] at hp; cases hp
+      · exact absurd horb (no_means_not_lc_equivalent a b mode draws out hn ha e hq hp)
+
+/-- and the property as worded is *false* for the code as it stands (D14): two disjoint edges compared with themselves are
+    in the same orbit (empty sequence) and are answered `no` -/
+theorem decides_lc_equivalence_refuted : ¬ decides_lc_equivalence_statement := by
+  intro h
+  have hs : Simple 4 twoK2.f := by
+    refine ⟨fun i j hi hj => ?_, fun i hi => ?_⟩
+    · simp only [twoK2, BMat.ofAdj]; apply decide_eq_decide.mpr; omega
+    · simp only [twoK2, BMat.ofAdj]; apply decide_eq_false; omega
+  have e := shortcut_incomplete_2K2
+  unfold answer at e
+  split at e
+  · rename_i o ho
+    have hso : o.sol = none := by simpa using e
+    have := (h twoK2 twoK2 .det [] o (by decide) rfl rfl rfl hs hs (by decide) ho).mpr ⟨[], by simp, EqAdj.refl 4 _⟩
+    rw [hso] at this
+    simp at this
+  · simp at e
+
+/-! non-vacuity with a *double*: the path 0–1–2–3 and the 4-cycle 0–2–1–3 (pivot on the edge 1–2) -/
+
+def P4 : BMat := BMat.ofAdj 4 (fun i j => i + 1 = j ∨ j + 1 = i)
+def Q4 : BMat := BMat.ofAdj 4 (fun i j => (i < 2 ∧ 2 ≤ j) ∨ (j < 2 ∧ 2 ≤ i))
+
+example : Simple P4.r P4.f := by
+  refine ⟨fun i j hi hj => ?_, fun i hi => ?_⟩
+  · simp only [P4, BMat.ofAdj]; apply decide_eq_decide.mpr; omega
+  · simp only [P4, BMat.ofAdj]; apply decide_eq_false; omega
+example : Simple Q4.r Q4.f := by
+  refine ⟨fun i j hi hj => ?_, fun i hi => ?_⟩
+  · simp only [Q4, BMat.ofAdj]; apply decide_eq_decide.mpr; omega
+  · simp only [Q4, BMat.ofAdj]; apply decide_eq_false; omega
+
+/-- what the model's `find_lc_operations` answers with the sufficient fuel `n + 1`, as data -/
+def seqAnswer (a b : BMat) : Option (List Nat) :=
+  match findLcOperations (a.r + 1) a b .det [] with
+  | .ok s => some s
+  | .error _ => none
+
+set_option maxRecDepth 100000 in
+/-- kernel-checked: the hypotheses of the theorems above are met by a pair that needs `_doubles` (the `Q` found is a
+    Hadamard on the vertices 1 and 2; the sequence is the pivot `1, 2, 1`, as the implementation returns) -/
+theorem path_cycle_sequence : seqAnswer P4 Q4 = some [1, 2, 1] := by decide +kernel
+
+set_option maxRecDepth 100000 in
+/-- and by the triangle and the 3-star (singles only) -/
+theorem triangle_star_sequence : seqAnswer K3 S3 = some [0, 1] := by decide +kernel
 
 end Graphiq.C09
